@@ -1,6 +1,7 @@
 import BytesVerif.Judge.C14
 import BytesVerif.Judge.C15
 import BytesVerif.Judge.Buf
+import BytesVerif.Judge.Mut
 
 def main (args : List String) : IO UInt32 := do
   match args with
@@ -11,6 +12,8 @@ def main (args : List String) : IO UInt32 := do
   | ["buf"] => BytesVerif.Judge.BufJ.run false
   | ["buf", "debug"] => BytesVerif.Judge.BufJ.run false
   | ["buf", "release"] => BytesVerif.Judge.BufJ.run true
+  | ["mut"] => BytesVerif.Judge.MutJ.run
+  | ["cert-c11"] => BytesVerif.Judge.MutJ.certSearch
   | ["cert-c10"] => BytesVerif.Judge.BufJ.certSearch
   | _ => do
     IO.eprintln s!"judge: unknown mode {args}"
